@@ -493,21 +493,21 @@ Proof.
     pose proof (read1_len (w_available w) s) as Hlen.
     destruct (read1 (w_available w) s) as [[b e] s'] eqn:Er. cbn [fst] in Hlen.
     assert (Hlb: len b <= w_available w) by lia. clear Hlen.
-    assert (Hi1: writer_inv (set_buf w (w_buf w ++ b) (w_dirty w))).
-    { apply set_buf_inv; [assumption|]. rewrite len_app. unfold w_available, w_n in Hlb. lia. }
+    assert (Hi1: forall d, writer_inv (set_buf w (w_buf w ++ b) d)).
+    { intro d. apply set_buf_inv; [assumption|]. rewrite len_app. unfold w_available, w_n in Hlb. lia. }
     destruct e as [e|].
     + destruct Hr as (-> & Hfl & ->).
-      assert (Hi2: forall d, writer_inv (set_buf (set_buf w (w_buf w ++ []) (w_dirty w)) (w_buf w ++ []) d)).
-      { intro d. apply set_buf_inv; [assumption|]. rewrite app_nil_r. assumption. }
+      assert (Hi2: forall d0 d, writer_inv (set_buf (set_buf w (w_buf w ++ []) d0) (w_buf w ++ []) d)).
+      { intros d0 d. apply set_buf_inv; [apply Hi1|]. rewrite app_nil_r. assumption. }
       destruct (tl s).
       * eexists _, _, _, _. split; [reflexivity|]. split; [discriminate|]. split; [wsimpl; apply Hi2|].
         wsimpl. rewrite app_nil_r. lia.
-      * eexists _, _, _, _. split; [reflexivity|]. split; [discriminate|]. split; [assumption|].
+      * eexists _, _, _, _. split; [reflexivity|]. split; [discriminate|]. split; [apply Hi1|].
         wsimpl. rewrite app_nil_r. lia.
     + destruct Hr as (Hbne & Hfl & Hs' & Htl).
       assert (Hlb0: 0 < len b) by (destruct b; [congruence|rewrite len_cons; lia]).
       assert (Hlf: len (flat s) = len b + len (flat s')) by (rewrite Hfl, len_app; reflexivity).
-      destruct (IH s' (total + len b) _ Hi1 Hs') as (n & e & w' & s'' & Hr & He' & Hi' & Hl).
+      destruct (IH s' (total + len b) _ (Hi1 (w_dirty w || (0 <? len b))) Hs') as (n & e & w' & s'' & Hr & He' & Hi' & Hl).
       * wsimpl. rewrite len_app. lia.
       * unfold rf_need in *. rewrite Ea in Hf.
         assert (length (flat s) = length b + length (flat s'))%nat by (rewrite Hfl, app_length; reflexivity).
